@@ -34,16 +34,18 @@ TIMEOUTS = {"quick": (600, 60), "thorough": (3000, 120)}
 
 
 def BOUNDS(tier):
-    n = 3 if tier == "quick" else 4
+    n = 4 if tier == "quick" else 5
     return {"max_nodes": n, "flavours": ser.FLAVOURS, "key_map": ["default", "off", "custom"], "value_map": ["default", "off", "custom"], "meta": [None, {"foo": "bar"}], "compression_native_only": ["False", "True", "STORED", "DEFLATED", "BZIP2", "LZMA"]}
 
 
 def shards(tier):
-    n = 3 if tier == "quick" else 4
+    n = 4 if tier == "quick" else 5
     out = []
     for fl in ser.FLAVOURS:
         nn = n if fl == "str" else n - 1
         for sh in shapes_upto(nn, 0):
+            if B.max_siblings(sh) > len(ser.POOL):
+                continue  # not constructible: siblings need distinct names
             out.append({"name": "rt-%s-%s" % (fl, shape_str(sh)), "fl": fl, "shape": list(sh), "cost": 5 if fl in ("typed", "derived") else 0})
     return out
 
